@@ -86,3 +86,8 @@ impl Block for FftStream {
 }
 /* vim: textwidth=80
  */
+
+#[cfg(rustradio_verif)]
+pub mod verif_access {
+    include!(concat!(env!("RUSTRADIO_VERIF_DIR"), "/access/fft_stream.rs"));
+}
